@@ -252,7 +252,20 @@ func GenTear(r *core.Rng) *ConcProgram {
 		ct := "text/patched"
 		p.Setup = append(p.Setup, &Op{Kind: "patch", B: concBucket, N: concNames[0], PatchCT: &ct})
 	}
-	switch r.Intn(3) {
+	switch r.Intn(4) {
+	case 3:
+		// the object being replaced is the SOURCE of a copy or a compose: what lands in the destination
+		// must be one version of the source, bytes and metadata together
+		p.Ops = append(p.Ops, &Op{Kind: "upload", B: concBucket, N: concNames[1], Content: []byte("NEW-SOURCE"), Meta: Meta{CT: "text/new"}, Declared: "none", Proto: "multipart"})
+		if r.Chance(1, 2) {
+			p.Ops = append(p.Ops, &Op{Kind: "copy", B: concBucket, N: concNames[1], B2: concBucket, N2: concNames[0]})
+		} else {
+			p.Ops = append(p.Ops, &Op{Kind: "compose", B: concBucket, N: concNames[0], Srcs: []Src{{Name: concNames[1]}}, HasMeta: true, Meta: Meta{CT: "text/composed"}})
+		}
+		if r.Chance(1, 2) {
+			p.Ops = append(p.Ops, &Op{Kind: "getmedia", B: concBucket, N: concNames[1]})
+		}
+		return p
 	case 0:
 		p.Ops = append(p.Ops, &Op{Kind: "upload", B: concBucket, N: concNames[0], Content: []byte("NEW"), Meta: Meta{CT: "text/new"}, Declared: "none", Proto: "multipart"})
 	case 1:
